@@ -26,6 +26,12 @@ func runC15(p *load.Program, r *oblig.Report) {
 	c15StartClose(p, r)
 	c15Functions(p, r)
 	c15RunLoop(p, r)
+	c15CoordinatorDeadlines(p, r)
+	// the coordinator signals a rebalance (or an unknown member, an illegal generation) with the error code of its
+	// answer: the Conn operations report that code whenever the round trip itself succeeded (C11.R9)
+	shareRules(r, "C15", "C15.R7 the coordinator's error codes reach the group", func(sub *oblig.Report) {
+		newC11(p, sub).ruleR9("C11.R9 a response-level error code is reported to the caller")
+	})
 }
 
 func isGenClose(i ssa.Instruction) bool {
@@ -545,4 +551,64 @@ func c15RunLoop(p *load.Program, r *oblig.Report) {
 		}
 	})
 	r.Check(okNext, rule, "ConsumerGroup.Next hands out only generations received from the group loop", p.Pos(next.Pos()), "case next := <-cg.next: return next, nil", "other source")
+}
+
+// c15CoordinatorDeadlines: every request the group sends to its coordinator (heartbeats included) is bounded in both
+// directions: the wrapper sets the connection's whole deadline — SetDeadline, not only its read or write half — from
+// the configured timeout before the request, and sends the request only if that succeeded. A heartbeat without a
+// write/read bound blocks for ever on a silent coordinator, so the generation never ends.
+func c15CoordinatorDeadlines(p *load.Program, r *oblig.Report) {
+	const rule = "C15.R6 every coordinator request carries a deadline"
+	root := p.SSAPkg("")
+	n := 0
+	for _, fn := range p.ModuleFunctions() {
+		if fn.Pkg != root || fn.Parent() != nil || fn.Signature.Recv() == nil || !an.NamedIs(fn.Signature.Recv().Type(), load.ModPath, "timeoutCoordinator") {
+			continue
+		}
+		var set *ssa.Call
+		var reqs []*ssa.Call
+		an.EachInstr(fn, func(ins ssa.Instruction) {
+			c, ok := ins.(*ssa.Call)
+			if !ok || c.Call.StaticCallee() == nil {
+				return
+			}
+			sc := c.Call.StaticCallee()
+			if sc.Signature.Recv() == nil || !an.NamedIs(sc.Signature.Recv().Type(), load.ModPath, "Conn") {
+				return
+			}
+			switch an.RefFuncName(sc) {
+			case "SetDeadline":
+				set = c
+			case "Close", "SetReadDeadline", "SetWriteDeadline":
+			default:
+				reqs = append(reqs, c)
+			}
+		})
+		for _, rq := range reqs {
+			n++
+			ok := false
+			found := "no SetDeadline before the request"
+			if set != nil {
+				arg := clean(an.Shape(set.Call.Args[len(set.Call.Args)-1]))
+				found = "SetDeadline(" + arg + ")"
+				fromTimeout := strings.Contains(arg, "time.Now()") && strings.Contains(arg, ".timeout")
+				// the request is sent on the err == nil edge of the SetDeadline test
+				onSuccess := false
+				for _, b := range an.Blocks(fn) {
+					_, ci := an.IfCond(b)
+					e := ci.Edge(token.EQL)
+					if e >= 0 && an.IsNilConst(ci.Y) && ci.X == ssa.Value(set) && edgeControls(b, e, rq.Block()) {
+						onSuccess = true
+					}
+				}
+				ok = fromTimeout && onSuccess
+				if !onSuccess {
+					found += ", whose error does not gate the request"
+				}
+			}
+			r.Check(ok, rule, "kafka."+load.FuncName(fn)+" → "+an.RefFuncName(rq.Call.StaticCallee())+" is sent under a deadline covering the write and the read", p.Pos(rq.Pos()),
+				"if err := t.conn.SetDeadline(time.Now().Add(t.timeout …)); err != nil { return }", found)
+		}
+	}
+	r.RequireCount(rule, n, 8)
 }
